@@ -173,7 +173,9 @@ pub fn check_case(rep: &mut Report, case: &TCase) -> Option<(String, String)> {
         }
         Ok((Ok(b), p)) => (b, p),
     };
-    if !want_ok {
+    let zero_width = case.source.iter().any(|(b, e)| b == e);
+    if zero_width { rep.count("source:zero-width-selection (coverage oracle not applied)"); }
+    if !want_ok && !zero_width {
         rep.fail("oracle", "C16/uncovered-source-accepted", ctx.clone(), "an error", &format!("{} annotations returned", builders.len()));
     }
     rep.count("outcome:transposed");
@@ -283,7 +285,8 @@ pub fn gen_case(seed: u64, i: usize) -> TCase {
     let k = if simple { 1 } else { 1 + rng.below(4) };
     let frag_alpha = ['a', 'b', 'c', 'd', '\u{e9}'];
     let fill_alpha = ['x', 'y', ' '];
-    let frags: Vec<String> = (0..k).map(|_| { let n = 1 + rng.below(5); rand_str(&mut rng, n, &frag_alpha) }).collect();
+    // a zero-width fragment now and then (not in a simple transposition, where it is the only one)
+    let frags: Vec<String> = (0..k).map(|_| { let n = if !simple && k > 1 && rng.chance(4) { 0 } else { 1 + rng.below(5) }; rand_str(&mut rng, n, &frag_alpha) }).collect();
     let mut texts = vec![];
     let mut sides = vec![];
     for s in 0..nsides {
@@ -320,7 +323,7 @@ pub fn gen_case(seed: u64, i: usize) -> TCase {
     for _ in 0..nsel {
         let f = *rng.pick(&frs);
         let sel = match rng.below(10) {
-            0..=3 => { let b = f.1 + rng.below(f.2 - f.1); let e = b + 1 + rng.below(f.2 - b); (b, e) }       // inside one fragment
+            0..=3 => { let b = f.1 + rng.below(f.2 - f.1); let e = (b + 1 + rng.below((f.2 - b).max(1))).min(tl); (b, e) }       // inside one fragment
             4 => (f.1, f.2),                                                                                      // a whole fragment
             5..=7 => { let b = f.1 + rng.below(f.2 - f.1); let e = (b + 1 + rng.below(8)).min(tl); (b, e) }       // running on (adjacent fragments or outside)
             8 => { let b = rng.below(tl.max(1)); let e = (b + 1 + rng.below(4)).min(tl); (b, e.max(b)) }           // anywhere
